@@ -287,11 +287,18 @@ func genConcCandCase(r *rng.R) fw.Case {
 		panic(err)
 	}
 	ents := lc.At(2)
+	// 1 case in 3 supplies values with the characters an HTML-escaping template engine would rewrite
+	alpha := "ab 1é{}%=,"
+	escapeProne := r.P(1, 3)
+	if escapeProne {
+		alpha = "ab <>&\"'1"
+		tags["conc:escape-prone-values"] = true
+	}
 	vars := func() *sx.Node {
 		vs := sx.L()
 		for _, n := range names {
 			if r.P(1, 2) {
-				vs.Add(sx.L(sx.A(n), sx.A(randFrom(r, "ab 1é{}%=,", 0, 5))))
+				vs.Add(sx.L(sx.A(n), sx.A(randFrom(r, alpha, 0, 5))))
 			}
 		}
 		return vs
@@ -334,6 +341,10 @@ func genConcKitCase(r *rng.R) fw.Case {
 		role: rng.Pick(r, []string{"flp001", "epn-12", "any", "role1"}), present: map[string][]string{}, ents: sx.L(), tags: map[string]bool{}}
 	g.populate()
 	tags := map[string]bool{"conc:kit-tree": true}
+	escapeProne := r.P(1, 3)
+	if escapeProne {
+		tags["conc:escape-prone-values"] = true
+	}
 	reqs := sx.L()
 	n := r.Range(3, 10)
 	for i := 0; i < n; i++ {
@@ -344,7 +355,7 @@ func genConcKitCase(r *rng.R) fw.Case {
 		}
 		k := rng.Pick(r, concKinds)
 		tags["conc:"+k] = true
-		reqs.Add(concReq(k, g.query(), g.vars(false)))
+		reqs.Add(concReq(k, g.query(), g.vars(escapeProne)))
 	}
 	return concCase(g.ents, reqs, concRounds(r), tags, "conc:random")
 }
